@@ -1,7 +1,7 @@
 (* C11 extension: case interpreter for the correspondence check of the extension models
    (ops 0..25 are interpreted by Model.run_case).  Definitions only. *)
 From ZV.Common Require Import Base Run.
-From ZV.C11 Require Import Model ModelMsd ModelAdv ModelPar ModelSkip ModelMultipass ModelFunnel.
+From ZV.C11 Require Import Model ModelMsd ModelAdv ModelPar ModelSkip ModelMultipass ModelFunnel ModelKv.
 Open Scope N_scope.
 
 (* a list of byte strings as one list: length, bytes, length, bytes, ... *)
@@ -25,6 +25,10 @@ Definition adv_obs {T} (key : T -> N) (c : adv_cfg) (data : list T) : list N :=
          [strat_code s; match s with SLsd => if lsd_takes_parallel T c data then 1 else 0 | _ => 0 end]
   end.
 
+(* key-value cases: the value attached to the i-th key is i *)
+Fixpoint indexed (i : N) (l : list N) : list (N * N) :=
+  match l with [] => [] | x :: t => (x, i) :: indexed (i + 1) t end.
+
 Definition run_case_x (op : N) (ps : list N) (ins : list (list N)) : list N :=
   let a := nth_l 0 ins in
   match op with
@@ -40,5 +44,12 @@ Definition run_case_x (op : N) (ps : list N) (ins : list (list N)) : list N :=
           N.of_nat (length runs) :: rs_sort_multipass (N.to_nat (nth_p 0 ps)) (N.to_nat (nth_p 1 ps)) a
   | 35 => co_sort (N.to_nat (nth_p 0 ps)) (nth_p 1 ps) (nth_p 2 ps) a
   | 36 => mwm_merge (nb (nth_p 0 ps)) (N.to_nat (nth_p 1 ps)) ins
+  | 37 => merge_tree ins
+  | 38 => vec_external_sort isort 8 (nth_p 0 ps) a
+  | 39 => match kv_sort (N.to_nat (nth_p 0 ps)) (indexed 0 a) with
+          | Some out => 1 :: map fst out ++ map snd out
+          | None => [0]
+          end
+  | 40 => adv_sort_int (N.to_nat (nth_p 0 ps)) isort (cfg_of (tl ps)) a
   | _ => run_case op ps ins
   end.
